@@ -291,6 +291,11 @@ def must_raise_forms(wmax):
             out.append(("SBV(%d,%d) out of range" % (v, w), lambda m, v=v, w=w: m.SBV(v, w)))
         out.append(("BV(%d,%d) out of range" % (MM, w), lambda m, MM=MM, w=w: m.BV(MM, w)))
         out.append(("BV(-1,%d)" % w, lambda m, w=w: m.BV(-1, w)))
+    # a slice with a step has no bit-vector meaning (x[i:j] is an extract)
+    def sliced(m):
+        m.env.enable_infix_notation = True
+        return m.Symbol("xs8", m.env.type_manager.BVType(8))[0:7:2]
+    out.append(("x[0:7:2] slice with a step", sliced))
     return out
 
 
